@@ -153,10 +153,13 @@ def h_reset(E):
         sel = [t for t in TOP if E.choose(2, 'reset_' + t)]
         E.cover('partial reset', 0 < len(sel) < len(TOP))
         E.cover('full reset', not sel)
-        kind, _ = outcome(ampycloud.reset_prms, list(sel) if sel else None)
+        # an empty selection is a selection (nothing named, nothing reset); only None means "everything"
+        arg = list(sel) if sel else [None, [], ()][E.choose(3, 'empty_form')]
+        E.cover('empty selection', arg is not None and len(arg) == 0)
+        kind, _ = outcome(ampycloud.reset_prms, arg)
         cl.append(('reset_prms returns', kind == 'ok'))
         now = dynamic.AMPYCLOUD_PRMS
-        want = dict(packaged[1]) if not sel else {k: (dict(packaged[1])[k] if k in sel else dict(edited[1])[k]) for k in dict(edited[1])}
+        want = dict(packaged[1]) if arg is None else {k: (dict(packaged[1])[k] if k in sel else dict(edited[1])[k]) for k in dict(edited[1])}
         got = dict(freeze(now)[1])
         cl.append(('named parameters restored to the packaged defaults, the others left as edited',
                    list(got) == list(want) and And([frozen_equal(got[k], want[k]) for k in want])))
@@ -213,7 +216,7 @@ HARNESSES = [
       float_model='R', scripted=True, cover=['a bundle of overlapping slices'],
       assumptions=['post-slicing state constructed by injecting slice ids after the real constructor; per-bundle clustering answers an arbitrary partition'],
       doc='2-run from a post-slicing state with a bundle of overlapping slices: grouping and layering read the chunk parameters only'),
-    H('H-reset', h_reset, quick=[()], thorough=[()], cover=['partial reset', 'full reset', 'key added in place', 'key removed in place'], float_model='R',
+    H('H-reset', h_reset, quick=[()], thorough=[()], cover=['partial reset', 'full reset', 'empty selection', 'key added in place', 'key removed in place'], float_model='R',
       doc='real reset_prms after nested in-place edits of every leaf, for every choice of names'),
     H('H-yaml', h_yaml, quick=[()], thorough=[()], cover=['ran'],
       doc='real set_prms on concrete YAML files (real ruamel): concrete enumeration, no symbolic content'),
